@@ -169,6 +169,7 @@ PROPS = {
             {"test": "TestC20Cache", "checks": 32000, "shards": 8, "race": True, "gomaxprocs": [4, 16, 2, 8]},
         ],
         "assumptions": [
+            "a history after which no cache operation returns for 120 s is reported as a deadlock (an operation takes micro- to milliseconds; the bound is 5-6 orders of magnitude above that)",
             "Debug is toggled only in sequential steps (its doc comment puts the synchronisation on the caller)",
             "interleavings of the concurrent batches are sampled; a 200 microsecond delay inside the loader during homogeneous batches only widens race windows and is never an oracle",
             "histories are shrunk and replayed by rapid (operation log printed with the violation); the replay file holds the minimal operation log",
